@@ -8,6 +8,7 @@ import Yabgp.Driver.MsgLogOps
 import Yabgp.Driver.MpOps
 import Yabgp.Driver.RestOps
 import Yabgp.Driver.EvfOps
+import Yabgp.Driver.XcOps
 
 namespace Yabgp.Glue
 open Lean (Json)
@@ -19,12 +20,17 @@ structure DState where
   msglog : MsgLogOps.MsgLogState := {}
   rest : Yabgp.RestGlue.RestState := {}
   evf : Yabgp.EvfGlue.EvfDState := {}
+  xc : XcGlue.XcState := {}
 
 def dispatch (st : DState) (j : Json) : Except String (DState × Json) := do
   let op ← getStr j "op"
   if Yabgp.RibGlue.isRibOp op then
     let (r, out) ← Yabgp.RibGlue.dispatchRib st.rib j
     return ({ st with rib := r }, out)
+  if op.startsWith "extcomm." || op.startsWith "commtext." || op.startsWith "largetext." || op.startsWith "xc."
+      || op == "spec.rfcextcomm" || op == "spec.rfcextattr" then
+    let (x, r) ← XcGlue.dispatchXc st.xc j
+    return ({ st with xc := x }, r)
   if op.startsWith "evpn." || op.startsWith "flowspec." || op.startsWith "evf." then
     let (e', r) ← Yabgp.EvfGlue.dispatchEvf st.evf j
     return ({ st with evf := e' }, r)
